@@ -739,6 +739,32 @@ example : LalIncluded lmEnv id { str := [97, 98], loopSet := some (fun c => c ==
   rcases this with rfl | rfl <;> simp [Pred.test] at hr <;> subst hr <;> simp [stringEq, eqExact]
 example : lalPrefixOf lalPat = some (.set (.base false [(120, 121)] []) false, [97, 98]) := rfl
 
+/-- `(?i)[\d\-]+(?:aab){1,2}B\Z` as the parser delivers it: `[Aa]{2}[Bb]` inside the counted group (adjacent equal
+    sets are coalesced into a fixed-count set loop).  `lalOf` reads the three tests `[Aa] [Aa] [Bb]` off the first
+    iteration of the group; the published ignore-case string "aab" includes them (`LalIncluded`). -/
+def ciLalPat : Pat :=
+  .seq (.atomic (.quant false 1 none (.chr (.set (.base false [(45, 45), (48, 57)] []) false))))
+    (.seq .empty
+      (.seq (.quant false 1 (some 2)
+              (.seq (.atomic (.quant false 2 (some 2) (.chr (.set (.base false [(65, 65), (97, 97)] []) false))))
+                (.chr (.set (.base false [(66, 66), (98, 98)] []) false))))
+        (.seq (.chr (.set (.base false [(66, 66), (98, 98)] []) false)) (.anchor .endz))))
+
+example : lalOf 5 ciLalPat = some ⟨.set (.base false [(45, 45), (48, 57)] []) false,
+    [.set (.base false [(65, 65), (97, 97)] []) false, .set (.base false [(65, 65), (97, 97)] []) false,
+     .set (.base false [(66, 66), (98, 98)] []) false]⟩ := rfl
+example : LalIncluded lmEnv id { str := [97, 97, 98], strIgnoreCase := true, loopSet := some (fun c => c == 45 || (48 ≤ c && c ≤ 57)) }
+    [.set (.base false [(65, 65), (97, 97)] []) false, .set (.base false [(65, 65), (97, 97)] []) false,
+     .set (.base false [(66, 66), (98, 98)] []) false] := by
+  unfold LalIncluded
+  simp only [List.isEmpty_cons, Bool.not_false, if_true]
+  refine ⟨by decide, ?_⟩
+  intro i h1 h2 r hr
+  have : i = 0 ∨ i = 1 ∨ i = 2 := by simp at h1; omega
+  rcases this with rfl | rfl | rfl <;>
+    simp [Pred.test, Cls.mem, inRanges, inNames] at hr <;>
+    rcases hr with ⟨ha, hb⟩ | ⟨ha, hb⟩ <;> (have hv := Nat.le_antisymm hb ha; subst hv; simp [stringEq, isAscii, eqAsciiFold, foldASCII])
+
 end LoopFacts
 
 end RegexVerif.Props.C04
